@@ -5,6 +5,7 @@ import (
 	"encoding/json"
 	"fmt"
 	"hash/fnv"
+	"regexp"
 	"strings"
 
 	"github.com/graphql-go/graphql"
@@ -56,6 +57,9 @@ var c06Reqs = []c06Req{
 	{"lit-id-int", `{ echo(id:4) }`, "", nil, nil},
 	{"lit-id-str", `{ echo(id:"4") }`, "", nil, nil},
 	{"lit-bool", `{ echo(b:true) }`, "", nil, nil},
+	{"lit-id-wide", `{ echo(id:12345678901) echo2(id:-98765432109, l:[1,2]) }`, "", nil, nil},
+	{"lit-float-exp", `{ echo(fl:1e3) echo2(fl:-0.5) }`, "", nil, nil},
+	{"lit-default-and-lit", `{ echo(s:"only-s") nodes(as:"A") { id } }`, "", nil, nil},
 	{"lit-two-args", `{ echo(i:1, s:"a") }`, "", nil, nil},
 	{"lit-two-args-swapped", `{ echo(s:"a", i:1) }`, "", nil, nil},
 	{"lit-default-only", `{ echo }`, "", nil, nil},
@@ -133,6 +137,9 @@ var c06Reqs = []c06Req{
 	{"hostile-static-args", `{ echo(i:1, s:"a") a { name(up:true) } }`, "", nil, map[string]string{"R@echo": FHostile, "R@a.name": FHostile}},
 	{"hostile-var-args", `query($i:Int){ echo(i:$i, s:"k") }`, "", []map[string]interface{}{v("i", 1), v("i", 2)}, map[string]string{"R@echo": FHostile}},
 	{"hostile-default-args", `{ echo nodes { id } }`, "", nil, map[string]string{"R@echo": FHostile, "R@nodes": FHostile}},
+	// failing resolvers after literals of different length (error locations)
+	{"lit-err-short", `{ echo(i:1) x1 leafy { sNN } }`, "", nil, map[string]string{"R@x1": FErr, "R@leafy.sNN": FErr}},
+	{"lit-err-long", `{ echo(i:123456) x1 leafy { sNN } }`, "", nil, map[string]string{"R@x1": FErr, "R@leafy.sNN": FPanicStr}},
 	{"introspect", `{ __type(name:"Kind") { name kind } }`, "", nil, nil},
 	{"introspect-2", `{ __type(name:"Filter") { name kind } }`, "", nil, nil},
 }
@@ -259,6 +266,10 @@ func (c06) Shrink(scn json.RawMessage) []json.RawMessage {
 	return out
 }
 
+var reLocations = regexp.MustCompile(`"locations":\[[^\]]*\]`)
+
+func stripLocations(s string) string { return reLocations.ReplaceAllString(s, `"locations":[]`) }
+
 func mergeArgs(user, synth map[string]interface{}) map[string]interface{} {
 	if len(user) == 0 && len(synth) == 0 {
 		return nil
@@ -345,7 +356,13 @@ func (c06) Run(t TestingT, scn json.RawMessage, tape *Tape) *Outcome {
 			}
 			want := c06Scratch(w, rq, vars)
 			log = append(log, fmt.Sprintf("get %s@%s", rq.Name, w.ID))
-			if res != want {
+			if res != want && stripLocations(res) == stripLocations(want) {
+				// the recorded finding F-C06-5: the plan shared under Normalize
+				// carries the AST - and so the error locations - of the request
+				// that created it
+				o.Violate("C06/error-locations-of-other-request", "op %d: Get+ExecutePlan of %q (normalize=%v) reports the error locations of another request's text\n cache: %s\n  fresh: %s\nhistory: %s",
+					i, rq.Query, sc.Normalize, res, want, strings.Join(log, "; "))
+			} else if res != want {
 				o.Violate("C06/differs@"+rq.Name, "op %d: Get+ExecutePlan of %q (op %q, vars %v, normalize=%v) differs from executing it from scratch\n cache: %s\n  fresh: %s\nhistory: %s",
 					i, rq.Query, rq.Op, vars, sc.Normalize, res, want, strings.Join(log, "; "))
 			}
@@ -364,7 +381,9 @@ func (c06) Run(t TestingT, scn json.RawMessage, tape *Tape) *Outcome {
 			want := c06Scratch(g.w, rq, vars)
 			o.Probe("plan-reexecuted")
 			log = append(log, fmt.Sprintf("reexec %s", rq.Name))
-			if res != want {
+			if res != want && stripLocations(res) == stripLocations(want) {
+				o.Violate("C06/error-locations-of-other-request", "op %d: re-executing the plan of %q reports the error locations of another request's text\n  plan: %s\n fresh: %s", i, rq.Query, res, want)
+			} else if res != want {
 				o.Violate("C06/reexec-differs@"+rq.Name, "op %d: re-executing the plan of %q with vars %v differs from executing it from scratch\n  plan: %s\n fresh: %s\nhistory: %s",
 					i, rq.Query, vars, res, want, strings.Join(log, "; "))
 			}
